@@ -7,7 +7,7 @@ check on the patched scratch tree /tmp/sw/<id> to record the rules.  Writes seed
 """
 import glob, json, os, re, shutil, subprocess, sys
 mat = {}
-for l in open(sys.argv[1]):
+for l in (open(sys.argv[1]) if sys.argv[1] != '-' else []):
     m = re.match(r'SEED (\w+): (.*)', l)
     if m:
         props = re.findall(r'C\d\d', m.group(2).split('(analysis')[0]) if 'MISSED' not in m.group(2) else []
@@ -47,6 +47,9 @@ for d in sorted(glob.glob(SRC + '/C*')):
                                     'suite_with_patch': g(r'(\d+ failed, \d+ passed[^\n]*?error)')},
                 'rule_written_after_seeing_the_seed': None}
         json.dump(meta, open(out + '/meta.json', 'w'), indent=1)
+if sys.argv[1] == '-':
+    print('imported only')
+    sys.exit(0)
 rows = []
 for mf in sorted(glob.glob('/verif/seeded/C*/meta.json')):
     meta = json.load(open(mf))
